@@ -1081,3 +1081,49 @@ Proof.
   - intros idx. rewrite (map_to_source_by_name _ req tbl idx Hnd Hlen Hnew). reflexivity.
 Qed.
 End Access.
+
+(* ---- TensorMask ---- *)
+Section Mask.
+Context {A : Type}.
+
+Lemma mask_shape sh : forall ms, length ms = length sh ->
+  let sh' := map2 (fun (d : name * N) (m : N * N) => (fst d, snd d - snd m)) sh ms in
+  names_of sh' = names_of sh /\ lens_of sh' = map2 (fun (d : name * N) (m : N * N) => snd d - snd m) sh ms.
+Proof.
+  induction sh as [|[n len] sh IH]; intros [|[s l] ms] Hl; cbn [length] in Hl; try lia.
+  - split; reflexivity.
+  - destruct (IH ms) as [E1 E2]; [lia|]. cbn zeta in *. unfold names_of, lens_of in *.
+    cbn [map2 map fst snd]. rewrite E1, E2. split; reflexivity.
+Qed.
+
+Lemma map_by_mask_in_range sh : forall ms idx,
+  Forall2 (fun (d : name * N) (r : N * N) => fst r + snd r <= snd d) sh ms ->
+  in_range idx (map2 (fun (d : name * N) (m : N * N) => snd d - snd m) sh ms) ->
+  in_range (map_by_mask idx ms) (lens_of sh).
+Proof.
+  induction sh as [|[n len] sh IH]; intros ms idx HF; inversion HF as [|? [start l] ? ms' Hd HF']; subst.
+  - destruct idx; cbn; tauto.
+  - destruct idx as [|i idx]; cbn [map2 in_range fst snd]; [tauto|]. intros [Hi Hr].
+    cbn [map_by_mask lens_of map snd in_range]. cbn in Hd. split; [|apply IH; assumption].
+    destruct (N.ltb_spec i start); [lia|]. apply N.min_lt_iff. right. lia.
+Qed.
+
+Theorem mask_wf (v v' : tview A) ms : view_wf v -> v_mask v ms = Some v' ->
+  view_wf v' /\ names_of (v_shape v') = names_of (v_shape v) /\
+  lens_of (v_shape v') = map2 (fun (d : name * N) (m : N * N) => snd d - snd m) (v_shape v) ms /\
+  forall idx, v_get v' idx = v_get v (map_by_mask idx ms).
+Proof.
+  intros [Hv [Hb Hg]]. unfold v_mask.
+  destruct (Nat.eqb_spec (length ms) (length (v_shape v))) as [Hl|]; cbn [negb orb]; [|discriminate].
+  destruct (exceeds_bounds (v_shape v) ms) eqn:Ex; [discriminate|].
+  destruct (valid_shape_b _) eqn:Vs; [|discriminate]. intros [= <-]. cbn [v_shape v_get].
+  destruct (mask_shape (v_shape v) ms Hl) as [E1 E2]. cbn zeta in E1, E2.
+  pose proof (range_bounds _ _ Hl Ex) as HF.
+  split; [|repeat split; auto]. unfold view_wf. cbn [v_shape v_get].
+  split; [apply valid_shape_b_spec, Vs|]. split.
+  - unfold elements in *. rewrite E2. eapply N.le_trans; [|exact Hb]. apply prod_le.
+    clear - HF. unfold lens_of. induction HF as [|[n len] [s l] sh rs H _ IH]; cbn; constructor; auto.
+    cbn in H. lia.
+  - intros idx Hr. rewrite E2 in Hr. apply Hg. apply map_by_mask_in_range; assumption.
+Qed.
+End Mask.
